@@ -309,6 +309,12 @@ impl<E> Topic<E> {
         + (if self.server is Some { 1nat } else { 0nat })      // unbinding a replier is progress too
     }
     pub open spec fn inv(&self) -> bool {
+        // the rejection slot: (Some(e), sink) = the refusal `e` (always REPLIER_ALREADY_BOUND) has still to be written to `sink`;
+        // (None, sink) = it has been written and `sink` has still to be closed.  A refused replier is never closed untold.
+        &&& (self.buffered_err is Some ==> match self.buffered_err->Some_0.0 {
+                Some(e) => e.code == 5,
+                None => told_already_bound(self.buffered_err->Some_0.1.sent()),
+            })                                                                                                           // [C10.refused_replier_is_told_before_it_is_closed C11.refused_with_error_frame]
         &&& self.next_id + self.handle.budget() < usize::MAX        // fewer than 2^64 registrations per topic (stated assumption)
         &&& (self.server is Some ==> self.server->Some_0.1.src_id() == SRC_SERVER())
         // requestor ids are never reused: every registered requestor sink has an id below the counter
@@ -340,6 +346,10 @@ impl<E> Topic<E> {
     ensures r.0.inv(), r.0.server is None, r.0.buffered_req is None, r.0.buffered_rep is None, r.0.buffered_err is None,
 //@end
 
+// the refusal has been written to this sink: its history ends with the error frame carrying REPLIER_ALREADY_BOUND
+pub open spec fn told_already_bound(sent: Seq<Frame>) -> bool {
+    sent.len() > 0 && sent.last() is Error && sent.last()->Error_0.code == 5
+}
 pub open spec fn opt_seq<T>(o: Option<T>) -> Seq<T> { match o { Some(x) => seq![x], None => Seq::empty() } }
 // the request as the replier must see it: origin tag forced to the id of the stream it arrived on, rest intact
 pub open spec fn tagged(orig: MessagePayload, id: usize, out: MessagePayload) -> bool {
